@@ -56,6 +56,27 @@ theorem ImgKept.refl {s : St} (hc : Consistent s) {p : Path} {m : MNode} (hm : s
   have hl : r0.layer = 0 := by have := hsh.2.1; rw [hu] at this; simpa using this.symm
   simp [Disk.statReal, hl, hsh.1]
 
+theorem dir_not_absent {n : Node} (h : n.isDir = true) : n.isAbsent = false := by
+  cases n <;> simp_all [Node.isDir, Node.isAbsent]
+
+theorem updFile_dir (L : Layer) (id : Nat) (f : Node → Node) (q : Path) (h : (L q).isDir = true) :
+    (L.updFile id f) q = L q := by
+  unfold Layer.updFile
+  cases hx : L q <;> simp_all [Node.isDir]
+
+theorem ImgKept.refl_anc {s : St} (hc : Consistent s) {p : Path} {m : MNode} (hm : s.mem p = some m)
+    (hmu : m.inUpper = true) (q : Path) (hq : q.isSuffixOf p = true) : ImgKept q s s := by
+  intro m0 r0 rest0 hm0 hr0 hw0
+  obtain ⟨t, ht⟩ := List.isSuffixOf_iff_suffix.1 hq
+  have hmqu := ancestors_inUpper hc t q m m0 (by rw [ht]; exact hm) hmu hm0
+  exact ImgKept.refl hc hm0 hmqu m0 r0 rest0 hm0 hr0 hw0
+
+theorem suffix_of_cons {q pp : Path} {n : Name} (h : q.isSuffixOf (n :: pp) = true) (hne : q ≠ n :: pp) :
+    q.isSuffixOf pp = true := by
+  rcases List.suffix_cons_iff.1 (List.isSuffixOf_iff_suffix.1 h) with h1 | h1
+  · exact absurd h1 hne
+  · exact List.isSuffixOf_iff_suffix.2 h1
+
 /-- what `create_upper_dir(p)` guarantees when it succeeds from `s` -/
 structure CUD (p : Path) (s s' : St) : Prop where
   cons : Consistent s'
@@ -65,7 +86,12 @@ structure CUD (p : Path) (s s' : St) : Prop where
   frame : ∀ p', ¬ p'.isSuffixOf p → s'.mem p' = s.mem p'
   keep : ∀ p' m0, s.mem p' = some m0 → ∃ m1, s'.mem p' = some m1 ∧ m1.loaded = m0.loaded ∧ m1.kids = m0.kids
   stat : StatKept s s'
-  img : ImgKept p s s'
+  /-- the node itself and every ancestor directory: what the upper entry shows afterwards is
+      what the node showed before (type, mode, content, target), up to the xattr -/
+  anc : ∀ q, q.isSuffixOf p = true → ImgKept q s s'
+
+theorem CUD.img {p : Path} {s s' : St} (h : CUD p s s') : ImgKept p s s' :=
+  h.anc p (List.isSuffixOf_iff_suffix.2 (List.suffix_refl p))
 
 /-- on failure -/
 structure CUDE (s s' : St) : Prop where
@@ -99,7 +125,8 @@ theorem cudStep_spec {s : St} (hc : Consistent s) (hu : s.disk.upper.isSome) (n 
     {r : Real} {rest : List Real} (hr : m.reals = r :: rest) (hdir : (s.disk.statReal r).isDir = true)
     (mode : Nat) (hmode : mode = (s.disk.statReal r).mode) :
     ∃ s', cudStep n pp mode s = .ok () s' ∧ CUD (n :: pp) s s' ∧
-      (∀ p', p' ≠ n :: pp → s'.mem p' = s.mem p') := by
+      (∀ p', p' ≠ n :: pp → s'.mem p' = s.mem p') ∧
+      (∀ q, q ≠ n :: pp → s'.disk.nodeAt 0 q = s.disk.nodeAt 0 q) := by
   obtain ⟨L, hup⟩ : ∃ L, s.disk.upper = some L := by
     cases h : s.disk.upper with
     | none => rw [h] at hu; cases hu
@@ -119,7 +146,7 @@ theorem cudStep_spec {s : St} (hc : Consistent s) (hu : s.disk.upper.isSome) (n 
     simp [childReal, realOf, nodeAt_setUpper _ _ _ hu, Node.isWhiteout, Node.isOpaqueDir]
   have hcons := upperDir_consistent hc hup n pp hpm hm hpu hmu hr hdir mode
     (s.log ++ [⟨0, Method.mkdir⟩])
-  refine ⟨_, ?_, ⟨hcons, ?_, ?_, ?_, ?_, ?_, ?_, ?_⟩, ?_⟩
+  refine ⟨_, ?_, ⟨hcons, ?_, ?_, ?_, ?_, ?_, ?_, ?_⟩, ?_, ?_⟩
   · have hq : realOf (s.disk.setUpper (n :: pp) (.dir mode 0 0)) (n :: pp) 0 =
         { layer := 0, inUpper := true, path := n :: pp, whiteout := false, opq := false } := by
       simp [realOf, nodeAt_setUpper _ _ _ hu, Node.isWhiteout, Node.isOpaqueDir]
@@ -161,14 +188,24 @@ theorem cudStep_spec {s : St} (hc : Consistent s) (hu : s.disk.upper.isSome) (n 
       · intro h
         show ((s.disk.setUpper (n :: pp) (.dir mode 0 0)).nodeAt r0.layer r0.path).isWhiteout = false
         rw [nodeAt_setUpper_ne _ _ _ hu _ _ (fun h => hp' (hrp ▸ h.2))]; exact h
-  · intro m0 r0 rest0 hm0 hr0 _
-    rw [hm] at hm0; cases hm0
-    rw [hr] at hr0; cases hr0
-    show ((s.disk.setUpper (n :: pp) (.dir mode 0 0)).nodeAt 0 (n :: pp)).view.dropX = _
-    rw [nodeAt_setUpper _ _ _ hu, hmode]
-    cases hx : s.disk.statReal r <;> simp_all [Node.isDir, Node.view, VNode.dropX, Node.mode]
+  · intro q hq
+    by_cases hqe : q = n :: pp
+    · subst hqe
+      intro m0 r0 rest0 hm0 hr0 _
+      rw [hm] at hm0; cases hm0
+      rw [hr] at hr0; cases hr0
+      show ((s.disk.setUpper (n :: pp) (.dir mode 0 0)).nodeAt 0 (n :: pp)).view.dropX = _
+      rw [nodeAt_setUpper _ _ _ hu, hmode]
+      cases hx : s.disk.statReal r <;> simp_all [Node.isDir, Node.view, VNode.dropX, Node.mode]
+    · intro m0 r0 rest0 hm0 hr0 hw0
+      show ((s.disk.setUpper (n :: pp) (.dir mode 0 0)).nodeAt 0 q).view.dropX = _
+      rw [nodeAt_setUpper_ne _ _ _ hu _ _ (fun h => hqe h.2)]
+      exact ImgKept.refl_anc hc hpm hpu q (suffix_of_cons hq hqe) m0 r0 rest0 hm0 hr0 hw0
   · intro p' hp'
     simp [Mem.set, hp']
+  · intro q hq
+    show (s.disk.setUpper (n :: pp) (.dir mode 0 0)).nodeAt 0 q = _
+    rw [nodeAt_setUpper_ne _ _ _ hu _ _ (fun h => hq h.2)]
 
 /-- outcome of a function that keeps the cache valid: success with `Q`, failure with `E` -/
 def Outcome {α : Type} (r : Res α) (Q : α → St → Prop) (E : St → Prop) : Prop :=
@@ -214,7 +251,7 @@ theorem createUpperDir_spec : ∀ (p : Path) (s : St), Consistent s → s.disk.u
       · by_cases hmu : m.inUpper = true
         · simp [Outcome, bind, M.bind, getNode, hm, hst, hd, hmu, pure, M.pure]
           exact ⟨hc, ⟨m, hm, hmu⟩, rfl, hu, fun _ _ => rfl, fun p' m0 h => ⟨m0, h, rfl, rfl⟩, StatKept.refl s,
-            ImgKept.refl hc hm hmu⟩
+            ImgKept.refl_anc hc hm hmu⟩
         · simp [Outcome, bind, M.bind, getNode, hm, hst, hd, hmu, fail]
           exact ⟨hc, rfl, hu⟩
       · simp [Outcome, bind, M.bind, getNode, hm, hst, hd, fail]
@@ -238,7 +275,7 @@ theorem createUpperDir_spec : ∀ (p : Path) (s : St), Consistent s → s.disk.u
         · by_cases hmu : m.inUpper = true
           · simp [Outcome, bind, M.bind, getNode, hm, hst, hd, hmu, pure, M.pure]
             exact ⟨hc, ⟨m, hm, hmu⟩, rfl, hu, fun _ _ => rfl, fun p' m0 h => ⟨m0, h, rfl, rfl⟩, StatKept.refl s,
-            ImgKept.refl hc hm hmu⟩
+            ImgKept.refl_anc hc hm hmu⟩
           · simp only [Bool.not_eq_true] at hmu
             obtain ⟨pm, hpm, _⟩ := hc.reach n pp m hm
             have hrl := real_lower hc hm hr hmu
@@ -273,7 +310,7 @@ theorem createUpperDir_spec : ∀ (p : Path) (s : St), Consistent s → s.disk.u
                 rw [nodeAt_of_lowers hlow hrl]; exact hd
               have hst1 : s1.disk.statReal r = s.disk.statReal r := by
                 simp only [Disk.statReal]; exact nodeAt_of_lowers hlow hrl _
-              obtain ⟨s2, hs2, hcud, hfr⟩ := cudStep_spec hc1 hu1 n pp hpm1 hm1 hpu1 hmu hr hdir1 (s.disk.statReal r).mode
+              obtain ⟨s2, hs2, hcud, hfr, hfrd⟩ := cudStep_spec hc1 hu1 n pp hpm1 hm1 hpu1 hmu hr hdir1 (s.disk.statReal r).mode
                 (by rw [hst1])
               rw [hs2]
               have hstat1 : StatKept s s1 := by
@@ -282,10 +319,19 @@ theorem createUpperDir_spec : ∀ (p : Path) (s : St), Consistent s → s.disk.u
                 · rw [h]; exact StatKept.refl s
               refine ⟨hcud.cons, hcud.up, by rw [hcud.lowers, hlow], hcud.upper, ?_, ?_, hstat1.trans hcud.stat, ?_⟩
               rotate_left 2
-              · intro m0 r0 rest0 hm0 hr0 hw0
-                rw [hm] at hm0; cases hm0
-                rw [hr] at hr0; cases hr0
-                rw [hcud.img m r rest hm1 hr hw0, hst1]
+              · intro q hq
+                by_cases hqe : q = n :: pp
+                · subst hqe
+                  intro m0 r0 rest0 hm0 hr0 hw0
+                  rw [hm] at hm0; cases hm0
+                  rw [hr] at hr0; cases hr0
+                  rw [hcud.img m r rest hm1 hr hw0, hst1]
+                · have hq' := suffix_of_cons hq hqe
+                  intro m0 r0 rest0 hm0 hr0 hw0
+                  rw [hfrd q hqe]
+                  rcases h1 with h | ⟨h, hpu⟩
+                  · exact h.anc q hq' m0 r0 rest0 hm0 hr0 hw0
+                  · rw [h]; exact ImgKept.refl_anc hc hpm hpu q hq' m0 r0 rest0 hm0 hr0 hw0
               · intro p' hp'
                 have hne : p' ≠ n :: pp := by
                   intro h; subst h; simp at hp'
@@ -453,9 +499,10 @@ theorem copyFileUp_spec {s : St} (hc : Consistent s) (hu : s.disk.upper.isSome) 
     have hpres : (s.disk.statReal r).isAbsent = false := head_present hc hm hr
     have finish : ∀ s3 : St, (∃ L3, s3.disk = s2.disk.setLayer 0 L3 ∧
           ((∀ p, sameShape (L3 p) ((L.set (n :: pp) X) p)) ∧ HostStep (L.set (n :: pp) X) L3) ∧
-          (m.whiteout = false → (L3 (n :: pp)).view.dropX = (s.disk.statReal r).view.dropX)) →
+          (m.whiteout = false → (L3 (n :: pp)).view.dropX = (s.disk.statReal r).view.dropX) ∧
+          (∀ q, (L q).isDir = true → q ≠ n :: pp → L3 q = L q)) →
         s3.mem = s2.mem.set (n :: pp) (some (addUpperNode m (childReal pr n) true)) → CUD (n :: pp) s s3 := by
-      intro s3 ⟨L3, hd3, ⟨hsh, hstp⟩, himg⟩ hm3
+      intro s3 ⟨L3, hd3, ⟨hsh, hstp⟩, himg, hdirs⟩ hm3
       have hfinal := consistent_sameShape hA (L := L.set (n :: pp) X) (L' := L3)
         (by simp [Disk.setUpper, hup, Disk.setLayer]) hsh hstp []
       have hstat1 : StatKept s s1 := by
@@ -494,11 +541,32 @@ theorem copyFileUp_spec {s : St} (hc : Consistent s) (hu : s.disk.upper.isSome) 
           · simp only [Disk.statReal, hrp] at h ⊢; rw [hsame.2.1]; exact h
       refine ⟨hfinal.congr ?_ ?_, ?_, ?_, ?_, ?_, ?_, hstat1.trans hstat3, ?_⟩
       rotate_right 1
-      · intro m0 r0 rest0 hm0 hr0 hw0
-        rw [hm] at hm0; cases hm0
-        rw [hr] at hr0; cases hr0
-        rw [hd3, nodeAt_setLayer0, if_pos rfl]
-        exact himg hw0
+      · intro q hq
+        by_cases hqe : q = n :: pp
+        · subst hqe
+          intro m0 r0 rest0 hm0 hr0 hw0
+          rw [hm] at hm0; cases hm0
+          rw [hr] at hr0; cases hr0
+          rw [hd3, nodeAt_setLayer0, if_pos rfl]
+          exact himg hw0
+        · have hq' := suffix_of_cons hq hqe
+          have hLq : (L q).isDir = true := by
+            obtain ⟨t, ht⟩ := List.isSuffixOf_iff_suffix.1 hq'
+            have hpd : (L pp).isDir = true := by simpa [Disk.nodeAt, Disk.layer, hup] using hdir0
+            cases t with
+            | nil => simp at ht; rw [ht]; exact hpd
+            | cons c t' =>
+              refine tree_ancestors_dir (hc1.trees 0 L hup) (c :: t') q ?_ (by simp)
+              rw [ht]
+              exact dir_not_absent hpd
+          intro m0 r0 rest0 hm0 hr0 hw0
+          have hnode : s3.disk.nodeAt 0 q = s1.disk.nodeAt 0 q := by
+            rw [hd3, nodeAt_setLayer0, if_pos rfl, hdirs q hLq hqe]
+            simp [Disk.nodeAt, Disk.layer, hup]
+          rw [hnode]
+          rcases h1 with h | ⟨h, hpu⟩
+          · exact h.anc q hq' m0 r0 rest0 hm0 hr0 hw0
+          · rw [h]; exact ImgKept.refl_anc hc hpm hpu q hq' m0 r0 rest0 hm0 hr0 hw0
       · rw [hd3, hdisk2]
       · rw [hm3, hmem2, hnodeEq]
       · exact ⟨_, by rw [hm3]; simp [Mem.set], hupAt⟩
@@ -533,11 +601,13 @@ theorem copyFileUp_spec {s : St} (hc : Consistent s) (hu : s.disk.upper.isSome) 
       rw [hcc, bind_ok (pure_eval () s2)]
       obtain ⟨s3, hadd, hd3, hm3⟩ := addUpperInode_ok' (childReal pr n) true hm2q
       rw [hadd]
-      refine finish s3 ⟨L.set (n :: pp) X, ?_, ⟨fun _ => sameShape_refl _, hostStep_refl _⟩, ?_⟩ hm3
+      refine finish s3 ⟨L.set (n :: pp) X, ?_, ⟨fun _ => sameShape_refl _, hostStep_refl _⟩, ?_, ?_⟩ hm3
       · rw [hd3, hdisk2]; simp [Disk.setUpper, hup, Disk.setLayer]
       · intro hmw
         simp only [Layer.set, if_true]
         exact hXimg hmw
+      · intro q _ hqe
+        simp [Layer.set, hqe]
     cases hstk : s.disk.statReal r with
     | file fid fmode fc fx =>
       have hXf : X = .file s1.nextId fmode [] 0 := by rw [← hX, hstk]; rfl
@@ -552,8 +622,14 @@ theorem copyFileUp_spec {s : St} (hc : Consistent s) (hu : s.disk.upper.isSome) 
         simp only [hWrite, Layer.set, if_true, hXf] at hwr
         cases hwr
         simp [Layer.updFile, Layer.set, pwrite]
+      have hL3d : ∀ q, (L q).isDir = true → q ≠ n :: pp → L3 q = L q := by
+        intro q hqd hqe
+        simp only [hWrite, Layer.set, if_true, hXf] at hwr
+        cases hwr
+        rw [updFile_dir _ _ _ q (by simp only [Layer.set, if_neg hqe]; exact hqd)]
+        simp only [Layer.set, if_neg hqe]
       exact finish s4 ⟨_, by rw [hd4, hd3], ⟨keepShape_hWrite (n :: pp) 0 fc _ _ hwr,
-        keepRoot_hWrite (n :: pp) 0 fc _ _ hwr⟩, fun _ => by rw [hL3q, hstk]; rfl⟩ (by rw [hm4, hm3])
+        keepRoot_hWrite (n :: pp) 0 fc _ _ hwr⟩, fun _ => by rw [hL3q, hstk]; rfl, hL3d⟩ (by rw [hm4, hm3])
     | symlink t => rw [hstk] at nocontent hX; exact nocontent rfl (fun _ => by rw [← hX]; rfl)
     | other oid omode => rw [hstk] at nocontent hX; exact nocontent rfl (fun _ => by rw [← hX]; rfl)
     | whiteout =>
